@@ -754,6 +754,7 @@ mod proofs_s {
     hi!(i6_add_stream_list_race_n2, i_add_stream_list_race, BCast<Pay>, 2);
     hi!(i3_send_single_addstream_n1_b2, i_try_send_addstream, BCast<Pay>, 1, SendKind::Single, 2);
     hi!(i3_send_single_addstream_n2_b2, i_try_send_addstream, BCast<Pay>, 2, SendKind::Single, 2);
+    hi!(i4_recv_disconnect_mpmc_n2, i_recv_disconnect, MPMC<Pay>, 2, true);
     hi!(i13_drop_send_race_bcast_n2, i_drop_send_race, BCast<Pay>, 2, false);
     hi!(i13_drop_send_race_mpmc_n2, i_drop_send_race, MPMC<Pay>, 2, true);
     hi!(i12_remove_consumer_n2, i_consumer_count, BCast<Pay>, 2, true);
